@@ -1,6 +1,7 @@
 (* C02, part c02prims - statements only (proofs in C02_Prims/): the Deserializer primitives and the stream Read
    helpers are total, never consume more than supplied, and their cost (make sizes + loop iterations) follows the data
-   actually present. Model = code after the fix: commits 2366906 (D02a), 93eaa3d (D01c), 251eda6 (D02c). *)
+   actually present. Model = code after the fix: commits 2366906 (D02a), 93eaa3d (D01c), 251eda6 (D02c), c8478d2 (ReadBytes
+   allocation scheme, sizeToInt). *)
 From Coq Require Import ZArith NArith List.
 From Verif.C02_Prims Require Import Model Stream ProofsLE ProofsPrims ProofsStream ProofsPairs.
 Import ListNotations.
@@ -55,13 +56,48 @@ Theorem C02_read_full_prefix : forall es want d got r e,
 Proof. exact read_full_spec. Qed.
 
 (* stream.ReadBytes for every length (negative and 2^63-1 included) and every reader script: no panic, consumes a
-   prefix n <= available, cost <= n + 4096 (allocation follows the data received), result = those n = len bytes. *)
+   prefix n <= available, everything handed to make is <= 4 n + min(len, 1 MiB) (the up-front buffer never exceeds
+   1 MiB, later buffers follow the data received), result = those n = len bytes. *)
 Theorem C02_stream_read_bytes_total_bounded : forall len r x r' c,
   read_bytes len r = (x, r', c) ->
   x <> Panic /\
-  exists n, (n <= length (rdata r))%nat /\ rdata r' = skipn n (rdata r) /\ (c <= N.of_nat n + 4096)%N /\
+  exists n, (n <= length (rdata r))%nat /\ rdata r' = skipn n (rdata r) /\
+            (c <= 4 * N.of_nat n + 1048576)%N /\ (c <= 4 * N.of_nat n + Z.to_N len)%N /\
             (forall bs, x = Ok bs -> bs = firstn n (rdata r) /\ Z.of_nat (length bs) = len).
 Proof. exact read_bytes_total. Qed.
+
+(* ... and up to the threshold of 1 MiB the allocation is exactly one buffer of len bytes, whatever arrives. *)
+Theorem C02_stream_read_bytes_exact_alloc : forall len r x r' c,
+  (0 <= len <= 1048576)%Z -> read_bytes len r = (x, r', c) -> c = Z.to_N len.
+Proof. exact read_bytes_exact_alloc. Qed.
+
+(* non-vacuity / sharpness: 2^20 + 1 bytes requested, 3 bytes present: 1 MiB handed to make, not more; the same with
+   all data present: 1 MiB + (2^20 + 1) *)
+Example C02_stream_read_bytes_cost_examples :
+  read_bytes 1048577 (mkR [1; 2; 3]%N [Half]) = (Err EUnexpEOF, mkR [] [], 1048576%N) /\
+  snd (read_bytes 1048577 (mkR (repeat 7%N 1048577) [])) = 2097153%N.
+Proof. split; vm_compute; reflexivity. Qed.
+
+(* readFixedSize + sizeToInt: a size prefix that reaches ReadBytes, ReadCollection or the caller of PeekSize fits
+   int; a uint64 prefix >= 2^63 is an error for every helper that reads one (no empty collection, no negative size). *)
+Theorem C02_stream_size_prefix_fits_int : forall l r v r' c,
+  read_fixed_size l r = (Ok v, r', c) -> (Z.of_N v <= MaxInt64)%Z.
+Proof. exact read_fixed_size_fits. Qed.
+Theorem C02_stream_size_prefix_too_big : forall l r bs r1 c1,
+  l <> LBad -> read_fixed (lpt_size l) r = (Ok bs, r1, c1) -> (MaxInt64 < Z.of_N (le_dec bs))%Z ->
+  read_fixed_size l r = (Err ESizeRange, r1, c1) /\
+  peek_size l r = (Err ESizeRange, r1, c1) /\
+  (forall k, read_collection l k r = (Err ESizeRange, r1, c1)) /\
+  read_bytes_with_size l r = (Err ESizeRange, r1, c1) /\
+  (forall f, read_object_with_size l f r = (Err ESizeRange, r1, c1)).
+Proof. exact size_prefix_too_big. Qed.
+Example C02_stream_size_prefix_examples :
+  let big := [0; 0; 0; 0; 0; 0; 0; 128; 9]%N in let ok := [255; 255; 255; 255; 255; 255; 255; 127; 9]%N in
+  fst (fst (read_collection L64 1 (mkR big []))) = Err ESizeRange /\
+  fst (fst (peek_size L64 (mkR big [Give 3]))) = Err ESizeRange /\
+  fst (fst (peek_size L64 (mkR ok [Half]))) = Ok 9223372036854775807%N /\
+  fst (fst (read_bytes_with_size L64 (mkR ok []))) = Err EUnexpEOF.
+Proof. repeat split; vm_compute; reflexivity. Qed.
 
 (* D02c on the pinned code: negative size panics, and make gets the prefix whatever the data. *)
 Theorem C02_refuted_pinned_stream_negative : forall r, fst (read_bytes_pinned (-1) r) = Panic.
@@ -81,6 +117,9 @@ Print Assumptions C02_refuted_zero_size_items.
 Print Assumptions C02_refuted_pinned_var_alloc.
 Print Assumptions C02_read_full_prefix.
 Print Assumptions C02_stream_read_bytes_total_bounded.
+Print Assumptions C02_stream_read_bytes_exact_alloc.
+Print Assumptions C02_stream_size_prefix_fits_int.
+Print Assumptions C02_stream_size_prefix_too_big.
 Print Assumptions C02_refuted_pinned_stream_negative.
 Print Assumptions C02_refuted_pinned_stream_alloc.
 Print Assumptions C02_le_decode_in_range.
